@@ -3,6 +3,17 @@ import importlib
 
 # property -> (engine module, {tier: (runs, soft wall budget seconds)})
 TABLE = {
+    "C01": ("exsim", dict(quick=(4000, 45), thorough=(150000, 540))),
+    "C02": ("exsim", dict(quick=(4000, 45), thorough=(150000, 540))),
+    "C03": ("exc03", dict(quick=(1500, 45), thorough=(60000, 540))),
+    "C04": ("exsim", dict(quick=(4000, 45), thorough=(150000, 540))),
+    "C05": ("exsim", dict(quick=(4000, 45), thorough=(150000, 540))),
+    "C06": ("exsim", dict(quick=(4000, 45), thorough=(150000, 540))),
+    "C07": ("exsim", dict(quick=(4000, 45), thorough=(150000, 540))),
+    "C08": ("exsim", dict(quick=(4000, 45), thorough=(150000, 540))),
+    "C09": ("exsim", dict(quick=(4000, 45), thorough=(150000, 540))),
+    "C10": ("exsim", dict(quick=(4000, 45), thorough=(150000, 540))),
+    "C11": ("exsim", dict(quick=(4000, 45), thorough=(150000, 540))),
     "C12": ("dispsim", dict(quick=(8000, 40), thorough=(400000, 480))),
     "C13": ("dispsim", dict(quick=(8000, 40), thorough=(400000, 480))),
     "C14": ("lifesim", dict(quick=(6000, 45), thorough=(300000, 540))),
